@@ -259,7 +259,7 @@ func runC14(c *RunCtx) {
 			}
 		})
 	}
-	simrt.SetBudget(400_000_000)
+	simrt.SetBudget(8_000_000_000)
 	deadlock := sched.Run()
 	blown := simrt.BudgetBlown()
 	simrt.SetBudget(0)
